@@ -20,8 +20,8 @@ from . import ctx
 from .sym import Sym, Unsupported, PyRaise, as_bool_term
 
 RLIMIT_FEAS = int(os.environ.get("PYVC_RLIMIT_FEAS", 3_000_000))
-RLIMIT_PROVE = int(os.environ.get("PYVC_RLIMIT", 60_000_000))
-TIMEOUT_MS = int(os.environ.get("PYVC_TIMEOUT_MS", 120_000))
+RLIMIT_PROVE = int(os.environ.get("PYVC_RLIMIT", 40_000_000))
+TIMEOUT_MS = int(os.environ.get("PYVC_TIMEOUT_MS", 60_000))
 
 
 class PathEnd(Exception):
@@ -51,7 +51,7 @@ def _mk_solver(rlimit, nonlinear=False):
     return s
 
 
-def cvc5_check(smt2: str, rlimit=2_000_000, tlimit_ms=60_000):
+def cvc5_check(smt2: str, rlimit=2_000_000, tlimit_ms=30_000):
     """Second back end: returns 'unsat' | 'sat' | 'unknown'."""
     t0 = time.time()
     try:
@@ -90,7 +90,7 @@ def solve(assertions, rlimit=RLIMIT_PROVE, want_model=True, use_cvc5=True, tacti
     backend = "z3"
     if r == z3.unknown:
         # second attempt: nonlinear tactic pipeline
-        for tac in (tactic, "qfnra-nlsat", "default"):
+        for tac in (tactic,):
             if tac is None:
                 continue
             try:
